@@ -327,6 +327,17 @@ class PeriodicGrid(Grid):
         # Call the constructor of the base class
         super().__init__(points, weights)
 
+    @Grid.points.setter
+    def points(self, value):
+        """Set the points of the grid and the intervals spanned by their fractional coordinates."""
+        Grid.points.fset(self, value)
+        if value.ndim == 1:
+            frac_points = value.reshape(-1, 1) * self._recivecs.reshape(1, -1)
+        else:
+            frac_points = value @ self._recivecs.T
+        if frac_points.size > 0:
+            self._frac_intvls = np.array([frac_points.min(axis=0), frac_points.max(axis=0)]).T
+
     @property
     def realvecs(self):
         """np.ndarray(N,) or np.ndarray(N, M): Real-space lattice vectors."""
